@@ -371,7 +371,7 @@ pub fn run(ctx: &mut Ctx) -> Result<(), Violation> {
                 exhaustive stages enumerate all pairs of functions of 2 (and, thorough, 3) variables under several id layouts \
                 (equal, nested, overlapping, disjoint, interleaved, gapped, reversed-position) for every connective, plus not/var/const; \
                 random stages draw operands of up to 5 variables with ids from 0..9. Non-trivial = binary case with both operands \
-                non-constant and different supports, ite with three non-constant operands, not over >= 2 variables; distinct by the serialized case."
+                non-constant and different supports, ite with three non-constant operands, not over >= 2 variables; distinct by the serialized case. Operand provenance: created in the environment through mk_choice (default), or - in a share of the random cases and in dedicated stages - plain values that belong to no environment / nodes of another environment (what BDD::<usize>::from(named) and the repository's own parser tests produce)."
         .to_string();
     ctx.assume("operands are created in the environment through mk_choice/mk_const (plain::intern), never by the operation under test");
     ctx.assume("oracle: pointwise bit operations on 2^k-bit truth tables (harness code)");
